@@ -65,6 +65,9 @@ MUTANTS = {
         ('checksum-be', 'dashlive/drm/playready.py', "        cipher = AES.new(keypair.KEY.raw, AES.MODE_ECB)\n        msg = cipher.encrypt(guid_kid)", "        cipher = AES.new(keypair.KEY.raw, AES.MODE_ECB)\n        msg = cipher.encrypt(keypair.KID.raw)"),
     ],
     'C12': [
+        ('mps-get-owner', 'dashlive/server/requesthandler/media_requests.py', "            segment_time: int | None = None\n            ) -> flask.Response:\n        period = models.Period.get(pk=ppk)\n        if period is None or period.parent_pk != current_mps.pk:", "            segment_time: int | None = None\n            ) -> flask.Response:\n        period = models.Period.get(pk=ppk)\n        if period is None:"),
+        ('mps-get-media-stream', 'dashlive/server/requesthandler/media_requests.py', "        media = models.MediaFile.get(stream_pk=period.stream.pk, name=filename)\n        if media is None:\n            logging.warning('Media file not  found: mps=%s ppk=%d filename=%s',", "        media = models.MediaFile.get(stream_pk=current_mps.pk, name=filename)\n        if media is None:\n            logging.warning('Media file not  found: mps=%s ppk=%d filename=%s',"),
+        ('mps-get-g-period', 'dashlive/server/requesthandler/media_requests.py', "        flask.g.stream = period.stream\n        flask.g.period = period\n", "        flask.g.stream = period.stream\n"),
         ('mps-start-ceil', 'dashlive/server/requesthandler/media_requests.py', '        start_time: int = int(math.floor(\n            period.start.total_seconds() * timing_ref.timescale))', '        start_time: int = int(math.ceil(\n            period.start.total_seconds() * timing_ref.timescale))'),
         ('mps-num-offset', 'dashlive/server/requesthandler/media_requests.py', '            mod_seg += seg_num - representation.start_number\n', '            mod_seg += seg_num - 1\n'),
         ('mps-beyond-end', 'dashlive/server/requesthandler/media_requests.py', '            if mod_seg > representation.num_media_segments:\n                logging.warning(\n                    "Request for segment', '            if mod_seg > representation.num_media_segments + 1:\n                logging.warning(\n                    "Request for segment'),
